@@ -93,7 +93,8 @@ def generate(template_path, repo, out_name):
         what = '%s:%s' % (t['file'], t['head'])
         log = []
         dropped = []
-        text = body
+        # comments carry no semantics: removed (newlines kept) so that rewrite patterns and anchors do not depend on them
+        text = X.strip_comments_keep_lines(body)
         # optional slice: keep only the text between two anchors inside the body
         if 'slice_from' in t or 'slice_to' in t:
             a, b = 1, len(text) - 1
@@ -123,6 +124,7 @@ def generate(template_path, repo, out_name):
             text = re.sub(rx, lambda mm: '\n' * mm.group(0).count('\n'), text, flags=re.S)
         text = preserve_lines_rewrites(text, t.get('rewrites', []), log, what)
         if t.get('std', True):
+            text = X.lower_local_lambdas(text, log)
             text = X.lower_range_for(text, log)
             text = preserve_lines_rewrites(text, X.STD_RULES, log, what)
         if 'this_members' in t:
